@@ -1,7 +1,8 @@
 (* C06 — decoded sections expose the values at the spec's offsets.  Statements only. *)
 From Coq Require Import String NArith List Bool.
 From RC Require Import lib.Result lib.Bytes model.Layout model.ChkIo
-  proofs.Layout_proofs proofs.Layout_offsets proofs.C06_proofs gen.GenLayouts spec.SpecLayouts.
+  proofs.Layout_proofs proofs.Layout_offsets proofs.C06_proofs gen.GenLayouts spec.SpecLayouts
+  model.Str proofs.C06_str.
 Import ListNotations.
 
 (* the layouts read from the transcoders' source ARE the layouts transcribed from the format description:
@@ -38,3 +39,15 @@ Theorem C06_field_at_offset_any_layout :
     x = VInt (le_decode (slice bs o w)).
 Proof. exact field_at_offset. Qed.
 Print Assumptions C06_field_at_offset_any_layout.
+
+(* the string tables (STR: w = 2, STRx: w = 4): the count is the integer at offset 0, offset k is the integer at
+   w + w*k, and the strings are the NUL-terminated runs of the data that starts right after the last offset *)
+Theorem C06_string_table_fields_at_the_spec_offsets :
+  forall w bs m, str_decode w bs = Ok m ->
+    ss_num m = le_decode (slice bs 0 w) /\
+    N.of_nat (length (ss_offsets m)) = ss_num m /\
+    (forall k, (k < length (ss_offsets m))%nat ->
+       nth_error (ss_offsets m) k = Some (le_decode (slice bs (w + w * k) w))) /\
+    split_nul [] (skipn (w + w * length (ss_offsets m)) bs) = Ok (ss_strings m).
+Proof. exact str_fields_at_spec_offsets. Qed.
+Print Assumptions C06_string_table_fields_at_the_spec_offsets.
